@@ -378,8 +378,11 @@ class Judge:
                 self.disc(rprop, 'I-records', op['i'], f'{name}: no log beside the result', expected=exp, zone=zone)
                 return
             # first line "<task> - run started with params: ...", last "<task> - run ended"; in between exactly this run's messages
-            body = got[1:-1] if len(got) >= 2 else None
-            ok = (body == exp and got[0].startswith(f'{lr["task"]} - run started with params:') and got[-1] == f'{lr["task"]} - run ended')
+            # (the library writes its "run ended" line when `run` returns; the body of a returned generator executes after
+            # that, so this run's messages are compared in order with that one line taken out wherever it stands)
+            ended = f'{lr["task"]} - run ended'
+            body = [m for m in got[1:] if m != ended] if len(got) >= 2 else None
+            ok = (body == exp and got[0].startswith(f'{lr["task"]} - run started with params:') and got[1:].count(ended) == 1)
             if not ok:
                 self.disc(rprop, 'I-records', op['i'], f'{name}: log does not hold exactly the messages of the run that produced the result',
                           got=got[:12], expected_body=exp, run=lr['run'], zone=zone)
@@ -950,8 +953,8 @@ class Eval:
             import datetime
             lr = {
                 'valid': True, 'run': runid, 'task': rec['task'],
-                'log': [f'marker {runid} begin'] + [f'marker {runid} step {k}' for k in range(nlog)],
-                'records': [{'marker': runid, 'n': 0}] + [{'marker': runid, 'n': k + 1} for k in range(nlog)],
+                'log': [f'marker {runid} begin'] + [f'marker {runid} step {k}' for k in range(nlog)] + ([f'marker {runid} gen'] if it.kind in ('gen', 'genlazy') and not self.j.proc.get('tree') else []),   # (release 1.4.0 detached the log before a generator body ran: F19)
+                'records': [{'marker': runid, 'n': 0}] + [{'marker': runid, 'n': k + 1} for k in range(nlog)] + ([{'marker': runid, 'n': 'gen'}] if it.kind in ('gen', 'genlazy') else []),
                 'params_at_run': dict(it.all_params),
                 'input_keys': sorted([t.slug, self.j.key_of_D.get(t.D)] for t in it.inputs.values()) if chain['pmode'] else None,
                 'slugD': (it.slug, it.D),
